@@ -48,3 +48,15 @@ where
         i += 1;
     }
 }
+
+
+/// Identity model of `core::slice::sort::unstable::sort`, for harnesses that (a) build every map in key
+/// order, so that the slot order the map model iterates in already is the sorted order, and (b) whose oracle
+/// does not depend on the order anyway (C09: the ranking of chains, never a tie). Comparing interned names
+/// through symbolically selected pointers (memcmp) inside the search loop is what made the sorted visit of
+/// compute_price_table too expensive (measured: 228 s / 4 GB -> 892 s / 17 GB).
+pub fn unstable_sort_identity<T, F>(_v: &mut [T], _is_less: &mut F)
+where
+    F: FnMut(&T, &T) -> bool,
+{
+}
